@@ -77,7 +77,8 @@ def _full_slice_text(fnode, expr, depth=8) -> str:
     "expression's renumbered signature (renumbering built from coefficients, constants, arguments and "
     "domains) and its evaluation points, ffcx.__version__, the ufcx.h hash, the kind and the caller's "
     "tag; at both jit call sites the tag slices back to ALL merged options, the extra compile args, "
-    "the debug flag and the interpreter ABI / CFLAGS",
+    "the debug flag and the interpreter ABI / CFLAGS (decided by interpreting the three functions on pairs of requests that differ in "
+    "one ingredient; what the JIT entry points pass: JIT-FLOW)",
     min_instances=14,
 )
 def sig_complete(repo, res):
@@ -90,166 +91,191 @@ def sig_complete(repo, res):
 
 
 def _sig_complete(repo, res):
+    """Sensitivity by interpretation: compute_signature, _compute_option_signature and _compilation_signature are interpreted with a
+    collision-free hash model on pairs of requests that differ in exactly one ingredient; the results must differ (and agree for
+    equal requests). What the two JIT entry points feed into them is decided by JIT-FLOW."""
+    from ..absint import Interp, Node, PyNative, Raised, _PyCall
+    from ..lnodes_model import load_classes
+    from ..npmodel import NDArr, install_arrays
+
     m = repo.mod(NAMING)
     cs = m.func("compute_signature")
     res.functions.add(cs.key)
-    hs = _hash_calls(cs.node)
-    if len(hs) != 1:
-        raise AnalysisError(f"compute_signature: expected one hashlib call, found {len(hs)}")
-    h = hs[0]
-    if not h.args:
-        raise AnalysisError("compute_signature: hashlib call without data")
-    text = _full_slice_text(cs.node, h.args[0])
-    need = {
-        "form-signature": r"\.signature\(\)",
-        "expression-signature": r"compute_expression_signature\(",
-        "points": r"\bpoints\b",
-        "ffcx-version": r"__version__",
-        "ufcx-header-hash": r"get_signature\(\)",
-        "kind": r"\bkind\b",
-        "tag": r"\btag\b",
+    loc = m.line(cs.node)
+
+    class _Sha(PyNative):
+        def __init__(self, data=b""):
+            self.data = bytes(data)
+
+        def update(self, more):
+            self.data += bytes(more)
+
+        def hexdigest(self):
+            return "H<" + self.data.hex() + ">"
+
+    class Form(PyNative):
+        def __init__(self, sig):
+            self.sig = sig
+
+        def signature(self):
+            return self.sig
+
+    class Expr(PyNative):
+        def __init__(self, name):
+            self.name = name
+
+    def run(objs, tag="tag", version="1.0", header="HDR"):
+        it = install_arrays(Interp(repo, load_classes(repo), primary=NAMING))
+        for nm in ("sha1", "sha256", "md5", "sha512", "blake2b"):
+            it.overrides[f"hashlib.{nm}"] = _PyCall(lambda d=b"", **k: _Sha(d))
+        it.overrides["ufl.Form"] = Form
+        it.overrides["ufl.core.expr.Expr"] = Expr
+        for pre in ("ufl.algorithms.", "ufl.algorithms.analysis."):
+            for fn_ in ("extract_coefficients", "extract_constants", "extract_arguments"):
+                it.overrides[pre + fn_] = _PyCall(lambda e_: [])
+        it.overrides["ufl.algorithms.analysis.unique_tuple"] = _PyCall(lambda d: tuple(d))
+        it.overrides["ufl.domain.extract_domains"] = _PyCall(lambda e_: [])
+        it.overrides["ufl.corealg.traversal.unique_pre_traversal"] = _PyCall(lambda e_: [])
+        it.overrides["ufl.algorithms.signature.compute_expression_signature"] = _PyCall(lambda e_, rn: "EXPRSIG:" + e_.name)
+        it.overrides["ffcx.__version__"] = version
+        it.overrides["ffcx.codegeneration.get_signature"] = _PyCall(lambda: header)
+        return it.call_f(cs, [list(objs), tag])
+
+    P = NDArr([[0.25, 0.5]], (1, 2))
+    base_f, base_e = [Form("SIG-A"), Form("SIG-B")], [(Expr("e1"), P)]
+    pairs = {
+        "form-signature": (lambda: run(base_f), lambda: run([Form("SIG-A"), Form("SIG-C")])),
+        "number-and-order-of-forms": (lambda: run(base_f), lambda: run(list(reversed(base_f)))),
+        "expression-signature": (lambda: run(base_e), lambda: run([(Expr("e2"), P)])),
+        "ffcx-version": (lambda: run(base_f), lambda: run(base_f, version="1.1")),
+        "ufcx-header-hash": (lambda: run(base_f), lambda: run(base_f, header="HDR2")),
+        "tag": (lambda: run(base_f), lambda: run(base_f, tag="other")),
+        # a form whose signature text equals what an expression contributes must still be told apart by the kind
+        "kind": (lambda: run([(Expr("e1"), NDArr([], (0, 2)))]), lambda: run([Form("EXPRSIG:e1" + str((0, 2)) + _Sha(NDArr([], (0, 2)).tobytes()).hexdigest())])),
     }
-    for name, pat in need.items():
+    for name, (fa, fb) in pairs.items():
         key = f"{cs.key}:hashed:{name}"
         res.ob(key)
-        if not re.search(pat, text):
-            res.fail(key, f"the hashed string of compute_signature no longer depends on {name}: requests that differ "
-                     f"only in it share a module name", m.line(h))
-    # digest not truncated
+        try:
+            a, b, a2 = fa(), fb(), fa()
+        except Raised as e:
+            res.fail(key, f"compute_signature raises ({e.what})", loc)
+            continue
+        if a == b:
+            res.fail(key, f"two requests that differ only in the {name} get the same signature: they share a module name and the second is served the first one's binary", loc)
+        if a != a2:
+            res.fail(key, "the same request gives two different signatures", loc)
     key = f"{cs.key}:full-digest"
     res.ob(key)
-    for r in [n for n in walk_no_nested(cs.node) if isinstance(n, ast.Return)]:
-        if r.value is not None and isinstance(r.value, ast.Subscript) and "hexdigest" in ast.unparse(r.value):
-            res.fail(key, "the signature digest is truncated", m.line(r))
-    # kinds are distinct strings per branch
-    key = f"{cs.key}:kind-values"
+    try:
+        d = run(base_f)
+        if not (isinstance(d, str) and d.startswith("H<") and d.endswith(">")):
+            res.fail(key, f"the signature returned is `{str(d)[:40]}...`, not the full digest (a truncated digest lets different requests collide)", loc)
+    except Raised as e:
+        res.fail(key, f"compute_signature raises ({e.what})", loc)
+    key = f"{cs.key}:unknown-object-rejected"
     res.ob(key)
-    kinds = [ast.literal_eval(n.value) for n in walk_no_nested(cs.node) if isinstance(n, ast.Assign)
-             and any(isinstance(t, ast.Name) and t.id == "kind" for t in n.targets) and isinstance(n.value, ast.Constant)]
-    if len(kinds) < 2 or len(set(kinds)) != len(kinds):
-        res.fail(key, f"form and expression requests are tagged with kinds {kinds}: not distinct", m.line(cs.node))
-    # renumbering map
-    ecs = [c for c in calls_in(cs.node) if (call_name(c) or "").endswith("compute_expression_signature")]
-    if len(ecs) != 1 or len(ecs[0].args) < 2:
-        raise AnalysisError("compute_signature: compute_expression_signature(expr, renumbering) call not found")
-    rn = ecs[0].args[1]
-    rtext = _full_slice_text(cs.node, rn)
-    for what, pat in (("coefficients", r"extract_coefficients"), ("constants", r"extract_constants"),
-                      ("arguments", r"extract_arguments"), ("domains", r"domain")):
-        key = f"{cs.key}:renumbering:{what}"
-        res.ob(key)
-        if not re.search(pat, rtext):
-            res.fail(key, f"the renumbering passed to compute_expression_signature does not cover {what}: the "
-                     "expression signature depends on global object counters (differs between processes)", m.line(ecs[0]))
-    # jit call sites
+    try:
+        run(["not a form"])
+        res.fail(key, "an object that is neither a form nor an (expression, points) pair is hashed instead of being rejected", loc)
+    except Raised:
+        pass
+    # ---- option signature
     j = repo.mod(JIT)
-    for fname in ("compile_forms", "compile_expressions"):
-        f = j.func(fname)
-        res.functions.add(f.key)
-        # every parameter that changes the produced binary is an argument of _compilation_signature
-        key = f"{f.key}:binary-affecting-parameters-in-signature"
-        res.ob(key)
-        csc = [c for c in calls_in(f.node) if (call_name(c) or "") == "_compilation_signature"]
-        passed = {n.id for c in csc for a in list(c.args) + [k.value for k in c.keywords] for n in ast.walk(a) if isinstance(n, ast.Name)}
-        affecting = [p for p in f.params if p in ("cffi_extra_compile_args", "cffi_debug", "cffi_libraries")]
-        missing = [p for p in affecting if p not in passed]
-        if missing:
-            res.fail(key, f"{fname}: {missing} change the compiled module but are not part of its signature: two requests differing only in them share one cached binary",
-                     j.line(f.node))
-        calls = [c for c in calls_in(f.node) if (call_name(c) or "").endswith("compute_signature")]
-        if len(calls) != 1 or len(calls[0].args) < 2:
-            raise AnalysisError(f"{fname}: compute_signature(objects, tag) call not found")
-        c = calls[0]
-        sl = Slicer(f.node)
-        ttext = sl.text(c.args[1])
-        for what, pat in (("options", r"_compute_option_signature\((\w+)\)"), ("compile-args", r"_compilation_signature\(\s*cffi_extra_compile_args\s*,\s*cffi_debug\s*(,\s*(cffi_libraries=)?cffi_libraries\s*)?\)")):
-            key = f"{f.key}:tag:{what}"
-            res.ob(key)
-            mm = re.search(pat, ttext)
-            if not mm:
-                res.fail(key, f"module name of {fname} does not depend on {what}", j.line(c))
-            elif what == "options":
-                # the argument must be the merged option dict returned by get_options, the one later used to generate
-                var = mm.group(1)
-                vt = sl.text(ast.Name(id=var, ctx=ast.Load()))
-                if "get_options(" not in vt:
-                    res.fail(key, f"option signature is computed from `{var}`, not from the merged options actually used", j.line(c))
-                # same dict goes to _compile_objects
-                co = [x for x in calls_in(f.node) if (call_name(x) or "").endswith("_compile_objects")]
-                if co and var not in {n.id for a in co[0].args for n in ast.walk(a) if isinstance(n, ast.Name)}:
-                    res.fail(key, f"the options hashed (`{var}`) are not the options passed to the build", j.line(co[0]))
-        key = f"{f.key}:objects-hashed"
-        res.ob(key)
-        a0 = ast.unparse(c.args[0])
-        want = "forms" if fname == "compile_forms" else "expressions"
-        if a0 != want:
-            res.fail(key, f"signature computed over `{a0}` instead of the `{want}` that are compiled", j.line(c))
-        # name prefix separates forms from expressions modules
-        key = f"{f.key}:module-prefix"
-        res.ob(key)
-    prefixes = []
-    for fname in ("compile_forms", "compile_expressions"):
-        f = j.func(fname)
-        for n in walk_no_nested(f.node):
-            if isinstance(n, ast.Assign) and any(isinstance(t, ast.Name) and t.id == "module_name" for t in n.targets):
-                consts = [x.value for x in ast.walk(n.value) if isinstance(x, ast.Constant) and isinstance(x.value, str)]
-                prefixes.append(consts[0] if consts else None)
-    key = f"{JIT}:module-prefixes-distinct"
-    res.ob(key)
-    if len(prefixes) != 2 or None in prefixes or prefixes[0] == prefixes[1]:
-        res.fail(key, f"module name prefixes {prefixes} do not separate form and expression modules", "ffcx/codegeneration/jit.py")
-    # option signature covers all items; compilation signature covers args + ABI
     osig = j.func("_compute_option_signature")
-    key = f"{osig.key}:all-items"
-    res.ob(key)
-    rets = [n for n in walk_no_nested(osig.node) if isinstance(n, ast.Return)]
-    rt = " ".join(ast.unparse(r.value) for r in rets if r.value is not None)
-    p = osig.params[0] if osig.params else "options"
-    osl = Slicer(osig.node)
-    mm = re.search(r"sorted\(\s*(\w+)\.items\(\)\s*\)", rt)
-    if not mm:
-        res.fail(key, f"_compute_option_signature returns `{rt}`: not every option (key and value, in a canonical order) "
-                 "enters the module name", j.line(osig.node))
-    else:
-        var = mm.group(1)
-        if var != p and p not in osl.names(ast.Name(id=var, ctx=ast.Load())):
-            res.fail(key, f"the hashed dict `{var}` does not derive from the options parameter", j.line(osig.node))
-        # the hashed dict must not be rewritten before hashing (dropped keys, normalised values): over-approximation,
-        # any in-place change of the hashed dict is reported
-        hashed_vars = {var} | ({p} if var != p else set())
-        for n in walk_no_nested(osig.node):
-            changed = None
-            if isinstance(n, (ast.Assign, ast.AugAssign)):
-                for t in (n.targets if isinstance(n, ast.Assign) else [n.target]):
-                    if isinstance(t, ast.Subscript) and isinstance(t.value, ast.Name) and t.value.id in hashed_vars:
-                        changed = ast.unparse(n)
-            if isinstance(n, ast.Call) and isinstance(n.func, ast.Attribute) and n.func.attr in ("pop", "update", "popitem", "clear", "setdefault") \
-                    and isinstance(n.func.value, ast.Name) and n.func.value.id in hashed_vars:
-                changed = ast.unparse(n)
-            if isinstance(n, ast.Delete):
-                changed = ast.unparse(n)
-            if changed:
-                res.fail(key, f"options are rewritten before hashing (`{changed[:70]}`): requests differing only in the "
-                         "rewritten option can share a module name", j.line(n))
-        if isinstance(osl.defs.get(var, [None])[0], (ast.DictComp,)) :
-            res.fail(key, "options are filtered through a comprehension before hashing", j.line(osig.node))
-    csig = j.func("_compilation_signature")
-    for r in [n for n in walk_no_nested(csig.node) if isinstance(n, ast.Return)]:
-        key = f"{csig.key}:return:{r.lineno and 'branch'}:{len(res.instances)}"
+    res.functions.add(osig.key)
+
+    def opt(d):
+        from ..npmodel import install as _install_np
+        it = _install_np(Interp(repo, load_classes(repo), primary=JIT))
+        it.overrides["ffcx.options.get_options"] = _PyCall(lambda *a, **k: {"scalar_type": "float64", "table_rtol": 1e-6, "verbosity": 30, "part": "full", "sum_factorization": False})
+        return it.call_f(osig, [dict(d)])
+    # every option the repository declares (ffcx.options.FFCX_DEFAULT_OPTIONS, read from the source) other than the logger verbosity
+    declared = _declared_options(repo)
+    O = {"scalar_type": "float64", "table_rtol": 1e-6, "verbosity": 30, "part": "full", "sum_factorization": False, **{k: v for k, (v, _) in declared.items()}}
+    cases = [("scalar_type", {**O, "scalar_type": "float32"}), ("scalar_type (real vs complex of one precision)", {**O, "scalar_type": "complex128"}), ("table_rtol", {**O, "table_rtol": 1e-3}),
+             ("part", {**O, "part": "diagonal"}), ("sum_factorization", {**O, "sum_factorization": True}), ("an-additional-option", {**O, "new_option": 1})]
+    for k, (_, alt) in declared.items():
+        if k != "verbosity" and k not in ("scalar_type", "table_rtol", "part", "sum_factorization"):
+            cases.append((k, {**O, k: alt}))
+    for name, other in cases:
+        key = f"{osig.key}:sensitive:{name}"
         res.ob(key)
-        t = ast.unparse(r.value) if r.value is not None else ""
-        csl = Slicer(csig.node)
-        full = (csl.text(r.value) if r.value is not None else "") + " " + t
-        miss = [w for w in list(csig.params) + ["get_config_var"] if w not in full]
-        if miss:
-            res.fail(f"{csig.key}:return", f"_compilation_signature branch returns `{t[:80]}` without {miss}", j.line(r))
-        lossy = re.search(r"\b(set|frozenset|sorted|fromkeys|unique)\([^()]*(?:\([^()]*\))?[^()]*cffi_extra_compile_args", full)
-        if lossy:
-            res.fail(f"{csig.key}:return", f"the compiler flags enter the signature through `{lossy.group(1)}(...)`, which forgets their order / repetition: compilers honour "
-                     "flag order (the last -O, -D/-U wins), so ['-O0','-O2'] and ['-O2','-O0'] would share a module name and the second request loads the first one's binary",
-                     j.line(r))
-        if "win32" not in ast.unparse(csig.node) or ("SOABI" not in t and "EXT_SUFFIX" not in t):
-            res.fail(f"{csig.key}:abi", "compilation signature lacks the interpreter ABI tag (SOABI / EXT_SUFFIX)", j.line(r))
+        try:
+            if opt(O) == opt(other):
+                res.fail(key, f"options that differ only in `{name}` have the same option signature: the generated code differs but the module name does not, so the later "
+                         "request is served the earlier module (option values equal to the defaults, or options counted as irrelevant, must still be part of it)", j.line(osig.node))
+        except Raised as e:
+            res.fail(key, f"_compute_option_signature raises ({e.what})", j.line(osig.node))
+    key = f"{osig.key}:order-independent"
+    res.ob(key)
+    try:
+        if opt(O) != opt(dict(reversed(list(O.items())))):
+            res.fail(key, "the option signature depends on the insertion order of the option dict", j.line(osig.node))
+    except Raised as e:
+        res.fail(key, f"_compute_option_signature raises ({e.what})", j.line(osig.node))
+    # ---- compilation signature
+    csig = j.func("_compilation_signature")
+    res.functions.add(csig.key)
+
+    def comp(args, debug, libs, platform="linux", cfg=None):
+        it = Interp(repo, load_classes(repo), primary=JIT)
+        it.overrides["sys.platform"] = platform
+        cfg = cfg or {}
+        it.overrides["sysconfig.get_config_var"] = _PyCall(lambda k: cfg.get(k, f"<{k}>"))
+        return it.call_f(csig, [list(args), debug, list(libs)])
+    base = (["-O0", "-g"], False, ["m"])
+    variants = {"flags": (["-O2", "-g"], False, ["m"]), "flag-order": (["-g", "-O0"], False, ["m"]), "repeated-flag": (["-O0", "-g", "-g"], False, ["m"]),
+                "debug": (["-O0", "-g"], True, ["m"]), "libraries": (["-O0", "-g"], False, ["m", "foo"])}
+    for plat in ("linux", "win32"):
+        for name, v in variants.items():
+            key = f"{csig.key}:{plat}:sensitive:{name}"
+            res.ob(key)
+            try:
+                if comp(*base, platform=plat) == comp(*v, platform=plat):
+                    res.fail(key, f"requests that differ only in the {name} ({base} vs {v}) have the same compilation signature on {plat}: compilers honour flag order and "
+                             "repetition (the last -O wins), the debug mode and the linked libraries change the binary", j.line(csig.node))
+            except Raised as e:
+                res.fail(key, f"_compilation_signature raises ({e.what}) on {plat}", j.line(csig.node))
+        key = f"{csig.key}:{plat}:abi"
+        res.ob(key)
+        try:
+            var = "EXT_SUFFIX" if plat == "win32" else "SOABI"
+            if comp(*base, platform=plat) == comp(*base, platform=plat, cfg={var: "another-abi"}):
+                res.fail(key, f"the compilation signature on {plat} does not contain the interpreter ABI tag ({var}): modules built for another Python are loaded", j.line(csig.node))
+        except Raised as e:
+            res.fail(key, f"_compilation_signature raises ({e.what}) on {plat}", j.line(csig.node))
+
+
+def _declared_options(repo):
+    """{option: (default, another admissible value)} read from the literal FFCX_DEFAULT_OPTIONS table in ffcx/options.py."""
+    try:
+        om = repo.mod("ffcx.options")
+    except Exception:
+        return {}
+    out = {}
+    for st in om.tree.body:
+        tgt = st.targets[0] if isinstance(st, ast.Assign) else (st.target if isinstance(st, ast.AnnAssign) else None)
+        if isinstance(tgt, ast.Name) and tgt.id == "FFCX_DEFAULT_OPTIONS" and isinstance(st.value, ast.Dict):
+            for k, v in zip(st.value.keys, st.value.values):
+                if not (isinstance(k, ast.Constant) and isinstance(v, ast.Tuple) and len(v.elts) == 4):
+                    continue
+                try:
+                    default = ast.literal_eval(v.elts[1])
+                    choices = ast.literal_eval(v.elts[3])
+                except Exception:
+                    continue
+                if choices:
+                    alt = next((c for c in choices if c != default), None)
+                elif isinstance(default, bool):
+                    alt = not default
+                elif isinstance(default, (int, float)):
+                    alt = default * 8 if default else 1
+                else:
+                    alt = str(default) + "_other"
+                if alt is not None:
+                    out[k.value] = (default, alt)
+    return out
 
 
 LOSSY_RENDERERS = {"repr", "str", "format", "ascii"}
@@ -340,112 +366,137 @@ def sig_injective(repo, res):
 @rule(
     "NAME-KEY",
     ["C13", "C19"],
-    "a generated object name computed inside a loop over entities is a function of the loop index or of "
-    "every component of the entity's identity; UFL groups integrals by (domain, type, subdomain ids), so "
-    "the integral name must depend on the group index or on the domain as well",
-    min_instances=3,
+    "the naming functions (integral_name, form_name, expression_name), interpreted with an injective stand-in for compute_signature, "
+    "give different names whenever any of their parameters differs and names of their own family (integral_ / form_ / expression_); "
+    "compute_ir, interpreted with those naming functions, gives distinct names to two forms with equal signature and to two integral "
+    "groups of one form that agree in type and subdomain id (different meshes), and hands every integral group its own name; "
+    "_compute_expression_ir names two expressions of one module differently (slice interpreted)",
+    min_instances=10,
 )
 def name_key(repo, res):
-    rep = repo.mod("ffcx.ir.representation")
-    f = rep.func("compute_ir")
-    res.functions.add(f.key)
-    found = 0
-    for loop in [n for n in walk_no_nested(f.node) if isinstance(n, ast.For)]:
-        it = ast.unparse(loop.iter)
-        idx = None
-        if isinstance(loop.iter, ast.Call) and call_name(loop.iter) == "enumerate" and isinstance(loop.target, ast.Tuple):
-            idx = loop.target.elts[0].id if isinstance(loop.target.elts[0], ast.Name) else None
-        for c in calls_in(loop):
-            nm = (call_name(c) or "").split(".")[-1]
-            if nm not in ("integral_name", "form_name", "expression_name"):
-                continue
-            # innermost loop containing the call
-            inner = [l for l in ast.walk(loop) if isinstance(l, ast.For) and l is not loop and any(x is c for x in ast.walk(l))]
-            if inner:
-                continue
-            found += 1
-            key = f"{f.key}:{nm}:key"
-            res.ob(key)
-            argnames = {n.id for a in list(c.args) + [k.value for k in c.keywords] for n in ast.walk(a) if isinstance(n, ast.Name)}
-            argtext = " ".join(ast.unparse(a) for a in list(c.args) + [k.value for k in c.keywords])
-            if idx is None:
-                res.fail(key, f"{nm}() is called in a loop without an index (`for {ast.unparse(loop.target)} in {it}`)", rep.line(c))
-                continue
-            if idx in argnames:
-                continue
-            if nm == "integral_name" and ".domain" in argtext and "integral_type" in argtext and "subdomain_id" in argtext:
-                continue
-            res.fail(key, f"{nm}(...) in the loop over `{it}` depends neither on the loop index `{idx}` nor on the full "
-                     "identity of the entity: two integral groups with equal type and subdomain id on different "
-                     "meshes (f1*dx(mesh1) + f2*dx(mesh2)) get the same C name", rep.line(c))
-    if found < 2:
-        raise AnalysisError("NAME-KEY: naming calls in compute_ir loops not found")
-    # the callee hashes every argument it is given
+    from ..absint import Interp, Node, PyNative, Raised, _PyCall
+    from ..lnodes_model import load_classes
+    from ..sliceint import value_of
+    from ._irsamples import IRSamples
+
     nm_mod = repo.mod(NAMING)
-    for fn in ("integral_name", "form_name", "expression_name"):
+    rep = repo.mod("ffcx.ir.representation")
+
+    class Obj(PyNative):
+        def __init__(self, name):
+            self.name = name
+
+        def __repr__(self):
+            return f"<{self.name}>"
+
+    class Expr(Obj):
+        pass
+
+    def naming_world(primary):
+        it = Interp(repo, load_classes(repo), primary=primary)
+        it.overrides["compute_signature"] = _PyCall(lambda objs, tag: "h" + repr(([repr(o) for o in objs], tag)).encode().hex())
+        it.overrides["naming.compute_signature"] = it.overrides["compute_signature"]
+        it.overrides["ufl.core.expr.Expr"] = Expr
+        return it
+
+    fa, fb = Obj("form a"), Obj("form b")
+    e1 = (Expr("expr 1"), "pts")
+    base = {"integral_name": dict(original_form=fa, integral_type="cell", form_id=0, subdomain_id=(1,), prefix="p", integral_id=0),
+            "form_name": dict(original_form=fa, form_id=0, prefix="p"),
+            "expression_name": dict(expression=e1, prefix="p", expression_id=0)}
+    other = {"original_form": fb, "integral_type": "exterior_facet", "form_id": 1, "subdomain_id": (2,), "prefix": "q", "integral_id": 1, "expression": (Expr("expr 2"), "pts"),
+             "expression_id": 1}
+    for fn, kw in base.items():
         g = nm_mod.func(fn)
         res.functions.add(g.key)
-        key = f"{g.key}:uses-all-params"
-        res.ob(key)
-        cs_calls = [c for c in calls_in(g.node) if (call_name(c) or "").endswith("compute_signature")]
-        if len(cs_calls) != 1:
-            raise AnalysisError(f"{fn}: compute_signature call not found")
-        gsl = Slicer(g.node)
-        used = set()
-        for a in cs_calls[0].args:
-            used |= set(gsl.names(a)) | {n.id for n in ast.walk(a) if isinstance(n, ast.Name)}
-        unused = [p for p in g.params if p not in used]
-        if unused:
-            res.fail(key, f"{fn} ignores its parameter(s) {unused} when computing the name", nm_mod.line(g.node))
+        if set(g.params) != set(kw):
+            unknown = sorted(set(g.params) - set(kw))
+            if unknown:
+                raise AnalysisError(f"{fn}: parameters {unknown} not understood")
+
+        def call(k_, _g=g):
+            it = naming_world(NAMING)
+            return it.call_f(_g, [], {p_: k_[p_] for p_ in _g.params if p_ in k_})
+        try:
+            n0 = call(kw)
+        except Raised as e:
+            res.ob(f"{g.key}:runs")
+            res.fail(f"{g.key}:runs", f"{fn} raises ({e.what})", nm_mod.line(g.node))
+            continue
         key = f"{g.key}:prefix"
         res.ob(key)
-        rets = [n for n in walk_no_nested(g.node) if isinstance(n, ast.Return)]
         kind = fn.split("_")[0]
-        if not rets or not isinstance(rets[0].value, ast.JoinedStr) or not ast.unparse(rets[0].value).startswith(f"f'{kind}_"):
-            res.fail(key, f"{fn} does not return an identifier with the `{kind}_` family prefix", nm_mod.line(g.node))
-    # every call of form_name / expression_name passes the position of the object in its module: equal signatures are possible
-    # (grad(f) and grad(g) for two coefficients of one space at the same points), the index keeps the C names apart
-    for m_ in repo.modules.values():
-        for fn_ in m_.funcs.values():
-            for c in calls_in(fn_.node):
-                nm = (call_name(c) or "").split(".")[-1]
-                if nm not in ("form_name", "expression_name"):
-                    continue
-                key = f"{fn_.key}:{nm}:per-object-index"
-                res.ob(key)
-                res.functions.add(fn_.key)
-                callee = nm_mod.func(nm)
-                ps = callee.params
-                bound = {ps[i]: a for i, a in enumerate(c.args) if i < len(ps)}
-                bound.update({k.arg: k.value for k in c.keywords if k.arg})
-                idx_param = [p for p in ps if p.endswith("_id") or p in ("index", "i")]
-                arg = bound.get(idx_param[0]) if idx_param else None
-                if arg is None or (isinstance(arg, ast.Constant) and arg.value is None):
-                    res.fail(key, f"{fn_.qualname} calls {nm}() without the position of the object in its module: two objects with the same signature "
-                             "(compile_expressions([(grad(f), pts), (grad(g), pts)])) get one C name and the module does not compile", m_.line(c))
-                    continue
-                # the argument is an enumerate() index of an enclosing loop / comprehension, or a parameter fed by one
-                names = {n.id for n in ast.walk(arg) if isinstance(n, ast.Name)}
-                enum_vars = set()
-                for n in ast.walk(fn_.node):
-                    gens = n.generators if isinstance(n, (ast.ListComp, ast.GeneratorExp, ast.SetComp, ast.DictComp)) else ([n] if isinstance(n, ast.For) else [])
-                    for g_ in gens:
-                        it = g_.iter
-                        tg = g_.target
-                        if isinstance(it, ast.Call) and call_name(it) == "enumerate" and isinstance(tg, ast.Tuple) and isinstance(tg.elts[0], ast.Name):
-                            enum_vars.add(tg.elts[0].id)
-                if not (names & (enum_vars | set(fn_.params))):
-                    res.fail(key, f"{fn_.qualname}: the index passed to {nm}() is `{ast.unparse(arg)}`, neither an enumerate() index nor a parameter", m_.line(c))
-    # jit name lists must be computed by the same naming functions with the module name as prefix
-    j = repo.mod(JIT)
-    for fname, nmf in (("compile_forms", "form_name"), ("compile_expressions", "expression_name")):
-        fj = j.func(fname)
-        key = f"{fj.key}:names-from:{nmf}"
-        res.ob(key)
-        cs_ = [c for c in calls_in(fj.node) if (call_name(c) or "").endswith(nmf)]
-        if len(cs_) != 1 or "module_name" not in ast.unparse(cs_[0]):
-            res.fail(key, f"{fname} does not compute object names with naming.{nmf}(…, module_name): looked-up names "
-                     "differ from the generated ones", j.line(fj.node))
+        if not (isinstance(n0, str) and n0.startswith(kind + "_") and n0.isidentifier()):
+            res.fail(key, f"{fn} returns `{str(n0)[:50]}`, not an identifier of the `{kind}_` family", nm_mod.line(g.node))
+        for p_ in g.params:
+            key = f"{g.key}:depends-on:{p_}"
+            res.ob(key)
+            try:
+                n1 = call({**kw, p_: other[p_]})
+            except Raised as e:
+                res.fail(key, f"{fn} raises ({e.what})", nm_mod.line(g.node))
+                continue
+            if n1 == n0:
+                res.fail(key, f"{fn} gives the same name when only `{p_}` differs ({kw[p_]!r} vs {other[p_]!r}): two objects of one module (or of two modules with "
+                         "different prefixes) share a C name", nm_mod.line(g.node))
+    # ---- compute_ir with the real naming functions
+    ci = rep.func("compute_ir")
+    res.functions.add(ci.key)
+    key = f"{ci.key}:distinct-names"
+    res.ob(key)
+    it = naming_world("ffcx.ir.representation")
+    it.overrides["logger"] = Node("Logger", info=_PyCall(lambda *a: None), debug=_PyCall(lambda *a: None))
+    seen = {"integral_names": None, "per_form": []}
+
+    def cii(fd, i, els, inames, opts, vis):
+        seen["integral_names"] = dict(inames)
+        seen["per_form"].append(i)
+        return []
+    it.overrides["_compute_integral_ir"] = _PyCall(cii)
+    it.overrides["_compute_form_ir"] = _PyCall(lambda fd, i, prefix, fnames, inames, idom, onames, part: Node("FormIR", name=fnames[i], name_from_uflfile=f"form_{prefix}_{i}"))
+    it.overrides["_compute_expression_ir"] = _PyCall(lambda e, i, prefix, an, opts, vis, onames: Node("ExpressionIR", name=f"e{i}", name_from_uflfile=f"expression_{prefix}_{i}"))
+    it.overrides["TensorPart.from_str"] = _PyCall(lambda s_: "TensorPart.full")
+    it.overrides["DataIR"] = _PyCall(lambda **k: Node("DataIR", **k))
+    it.overrides["itertools.chain"] = _PyCall(lambda *a: [x for l_ in a for x in l_])
+    same = Obj("form with one signature")  # two list entries with an equal signature (repr) but different positions
+    same2 = Obj("form with one signature")
+    groups = [Node("IntegralData", integral_type="cell", subdomain_id=(1,), domain="mesh1"), Node("IntegralData", integral_type="cell", subdomain_id=(1,), domain="mesh2"),
+              Node("IntegralData", integral_type="exterior_facet", subdomain_id=(1,), domain="mesh1")]
+    fds = [Node("FormData", original_form=same, integral_data=list(groups)), Node("FormData", original_form=same2, integral_data=list(groups[:1]))]
+    an = Node("UFLData", form_data=fds, expressions=[], element_numbers={}, unique_elements=[])
+    try:
+        out = it.call_f(ci, [an, {}, "p", {"part": "full", "scalar_type": "float64"}, False])
+        inames = seen["integral_names"] or {}
+        want_keys = {(0, 0), (0, 1), (0, 2), (1, 0)}
+        if set(inames) != want_keys:
+            res.fail(key, f"integral names are computed for {sorted(inames)}, expected one per (form, integral group) = {sorted(want_keys)}", rep.line(ci.node))
+        elif len(set(inames.values())) != len(inames):
+            dup = [k_ for k_ in inames if list(inames.values()).count(inames[k_]) > 1]
+            res.fail(key, f"integral groups {dup} get the same name: two groups of one form with equal type and subdomain id on different meshes (f1*dx(mesh1) + f2*dx(mesh2)), or "
+                     "the groups of two forms with equal signature, define one C object twice", rep.line(ci.node))
+        fnames = [x.f["name"] for x in out.f["forms"]]
+        if len(set(fnames)) != 2:
+            res.fail(key, f"two forms with the same signature in one module are both named {fnames[0]}", rep.line(ci.node))
+    except Raised as e:
+        res.fail(key, f"compute_ir raises ({e.what}) on two forms with three / one integral groups", rep.line(ci.node))
+    # ---- expression names inside _compute_expression_ir
+    g = rep.func("_compute_expression_ir")
+    res.functions.add(g.key)
+    key = f"{g.key}:name:per-object-index"
+    res.ob(key)
+    S = IRSamples(repo)
+    names = []
+    try:
+        for index in (0, 1):
+            it2, env = S.expression(g)
+            it2.overrides["naming.expression_name"] = _PyCall(lambda e, prefix, i=None: f"expression[{e[0].f.get('name') if hasattr(e[0], 'f') else e[0]}|{prefix}|{i}]")
+            env["index"] = index
+            names.append(value_of(it2, g, env, key="name"))
+        if names[0] == names[1] or "|0]" not in str(names[0]):
+            res.fail(key, f"two expressions of one module with equal signature are named {names}: the position of the expression must be part of its name "
+                     "(compile_expressions([(grad(f), pts), (grad(g), pts)]) would define one C object twice)", rep.line(g.node))
+    except Raised as e:
+        res.fail(key, f"_compute_expression_ir raises ({e.what}) while naming", rep.line(g.node))
 
 
 MIN_HEX = 10  # 40 bits
